@@ -9,8 +9,16 @@ def brk(prop, vid, file, old, new, rule, what=""):
   V.append(dict(prop=prop, id=vid, kind="break", file=file, old=old, new=new, rule=rule, what=what))
 
 
-def ben(prop, vid, file, old, new, what=""):
-  V.append(dict(prop=prop, id=vid, kind="benign", file=file, old=old, new=new, what=what))
+def ben(prop, vid, file, old, new, what="", all=False):
+  V.append(dict(prop=prop, id=vid, kind="benign", file=file, old=old, new=new, what=what, all=all))
+
+
+def brk2(prop, vid, file, edits, rule, what=""):
+  V.append(dict(prop=prop, id=vid, kind="break", file=file, edits=edits, rule=rule, what=what))
+
+
+def ben2(prop, vid, file, edits, what=""):
+  V.append(dict(prop=prop, id=vid, kind="benign", file=file, edits=edits, what=what))
 
 
 ISD = "ttconv/isd.py"
@@ -210,5 +218,55 @@ ben("C06", "c06-benign-extend", "ttconv/filters/isd/merge_paragraphs.py", "     
 ben("C09", "c09-benign-reset-first", DF, "    if tti.EBN != 0xFF:\n      self.is_in_extension = True\n      return\n\n    self.is_in_extension = False\n", "    self.is_in_extension = tti.EBN != 0xFF\n    if self.is_in_extension:\n      return\n")
 brk("C16", "c16-safe-area-falsy", LCD, "          x=LengthType(self.config.safe_area, LengthType.Units.pct),", "          x=LengthType(self.config.safe_area or 10, LengthType.Units.pct),", "LINT-h")
 brk("C11", "c11-size-before-vertical", VTTR, "  # writing direction\n\n  value = cue_settings.get(\"vertical\")\n  if value == \"lr\":\n    writing_mode = styles.WritingModeType.tblr\n  elif value == \"rl\":\n    writing_mode = styles.WritingModeType.tbrl\n  elif value is not None:\n    LOGGER.warning(\"Bad vertical setting value: %s\", value)\n\n\n  # size\n", "  # size\n", None, "vertical no longer parsed")
+
+# ---------------------------------------------------------------------------------------- C19
+TT = "ttconv/tt.py"
+brk("C19", "c19-itype-case", TT, "    return FileTypes(file_type.lower())", "    return FileTypes(file_type)", "TYPE")
+brk("C19", "c19-ext-case", TT, "      return FileTypes(file_extension.lower())", "      return FileTypes(file_extension)", "TYPE")
+brk("C19", "c19-ext-wins", TT, "    if file_type is None:\n      if len(file_extension) > 0", "    if file_extension is not None:\n      if len(file_extension) > 0", "TYPE", "extension wins over --itype")
+brk("C19", "c19-config-precedence", TT, "  if args.config is not None:\n    json_config_data = json.loads(args.config)\n  if args.config_file is not None:\n    with open(args.config_file) as json_file:\n      json_config_data = json.load(json_file)\n",
+    "  if args.config_file is not None:\n    with open(args.config_file) as json_file:\n      json_config_data = json.load(json_file)\n  if args.config is not None:\n    json_config_data = json.loads(args.config)\n", "CONFIG")
+brk("C19", "c19-config-file-elif", TT, "  if args.config_file is not None:\n    with open(args.config_file)", "  elif args.config_file is not None:\n    with open(args.config_file)", "CONFIG", "file ignored when both given")
+brk("C19", "c19-wrong-config-class", TT, "    writer_config = read_config_from_json(SRTWriterConfiguration, json_config_data)", "    writer_config = read_config_from_json(VTTWriterConfiguration, json_config_data)", "DSP-types")
+brk("C19", "c19-scc-config-dropped", TT, "    model = scc_reader.to_model(file_as_str, reader_config, progress_callback_read)", "    model = scc_reader.to_model(file_as_str, None, progress_callback_read)", "DSP-types")
+brk("C19", "c19-output-opened-early", TT, "    srt_document = srt_writer.from_model(model, writer_config, progress_callback_write)\n\n    #\n    # Write out the converted file\n    #\n    with open(outputfile, \"w\", encoding=\"utf-8\") as srt_file:\n      srt_file.write(srt_document)",
+    "    with open(outputfile, \"w\", encoding=\"utf-8\") as srt_file:\n      srt_document = srt_writer.from_model(model, writer_config, progress_callback_write)\n      srt_file.write(srt_document)", "OUT")
+brk("C19", "c19-lang-after-filters", TT, "  #\n  # apply document language\n  #\n  if general_config is not None and general_config.document_lang is not None:\n    model.set_lang(general_config.document_lang)\n\n  #\n  # apply document filter\n  #\n",
+    "  #\n  # apply document filter\n  #\n", None, "document_lang no longer applied")
+brk("C19", "c19-filters-reversed", TT, "  for filter_name in args.filter:", "  for filter_name in reversed(args.filter):", "ORD")
+brk("C19", "c19-filters-set", TT, "  for filter_name in args.filter:", "  for filter_name in set(args.filter):", None)
+brk("C19", "c19-filter-default-config", TT, "doc_filter_class(filter_config or filter_config_class())", "doc_filter_class(filter_config)", "ORD")
+brk("C19", "c19-no-exit-on-unsupported-output", TT, "      exit_str = f'Output file is {args.output} is not supported'\n\n    LOGGER.error(exit_str)\n    sys.exit(exit_str)", "      exit_str = f'Output file is {args.output} is not supported'\n\n    LOGGER.error(exit_str)", "DSP-types")
+brk("C19", "c19-decoder-bool", "ttconv/vtt/config.py", "cue_id: bool = field(default=True, metadata={\"decoder\": decode_bool})", "cue_id: bool = field(default=True, metadata={\"decoder\": bool})", "TAB-decoders")
+brk("C19", "c19-duplicate-section", "ttconv/vtt/config.py", "    return \"vtt_writer\"", "    return \"srt_writer\"", "CONFIG")
+brk("C19", "c19-set-iteration", ISD, "    return SignificantTimes(sorted(s_times), tuple(cache))", "    return SignificantTimes(list(s_times), tuple(cache))", "DET-set")
+brk("C19", "c19-itype-with-output-ext", TT, "  writer_type = FileTypes.get_file_type(args.otype, output_file_extension)", "  writer_type = FileTypes.get_file_type(args.otype, input_file_extension)", "TYPE")
+brk("C19", "c19-global-cache", "ttconv/filters/document_filter.py", "  @classmethod\n  def get_filter_by_name(cls, name)", "  _cache = {}\n\n  @classmethod\n  def remember(cls, name, value):\n    cls._cache[name] = value\n\n  @classmethod\n  def get_filter_by_name(cls, name)", None, "class-level cache mutated")
+ben("C19", "c19-benign-rename-config-var", TT, "json_config_data", "cfg_json", "local renamed everywhere", all=True)
+ben("C19", "c19-benign-casefold", TT, "    return FileTypes(file_type.lower())", "    return FileTypes(file_type.casefold())")
+V.append(dict(prop="C19", id="c19-benign-model-rename", kind="benign", file=TT, all=True, what="document local renamed",
+              edits=[("  model = ", "  document = "), ("model.set_lang", "document.set_lang"), ("process(model)", "process(document)"), ("from_model(model,", "from_model(document,")]))
+ben("C19", "c19-benign-general-first", TT, "  LOGGER.info(\"Input file is %s\", inputfile)\n  LOGGER.info(\"Output file is %s\", outputfile)\n", "  LOGGER.info(\"Output file is %s\", outputfile)\n  LOGGER.info(\"Input file is %s\", inputfile)\n")
+
+# ---------------------------------------------------------------------------------------- C07
+SRTW, VTTW = "ttconv/srt/writer.py", "ttconv/vtt/writer.py"
+brk("C07", "c07-srt-close-order", SRTW, "        if is_italic:\n          self._paragraphs[-1].append_text(style.ITALIC_TAG_OUT)\n        if is_bold:\n          self._paragraphs[-1].append_text(style.BOLD_TAG_OUT)", "        if is_bold:\n          self._paragraphs[-1].append_text(style.BOLD_TAG_OUT)\n        if is_italic:\n          self._paragraphs[-1].append_text(style.ITALIC_TAG_OUT)", "PAIR-tags")
+brk("C07", "c07-vtt-wrong-closer", VTTW, "      if is_underlined:\n        self._paragraphs[-1].append_text(style.UNDERLINE_TAG_OUT)\n      if is_italic:", "      if is_underlined:\n        self._paragraphs[-1].append_text(style.ITALIC_TAG_OUT)\n      if is_italic:", "PAIR-tags")
+brk("C07", "c07-vtt-closer-condition", VTTW, "      if color is not None:\n        self._paragraphs[-1].append_text(style.COLOR_TAG_OUT)", "      if color is not None and bg_color is None:\n        self._paragraphs[-1].append_text(style.COLOR_TAG_OUT)", "PAIR-tags")
+brk("C07", "c07-srt-format-off", SRTW, "      if self._text_formatting:\n        if is_underlined:\n          self._paragraphs[-1].append_text(style.UNDERLINE_TAG_OUT)", "      if True:\n        if is_underlined:\n          self._paragraphs[-1].append_text(style.UNDERLINE_TAG_OUT)", None)
+brk("C07", "c07-vtt-no-escape", VTTW, "self._paragraphs[-1].append_text(style.escape_cue_text(element.get_text()))", "self._paragraphs[-1].append_text(element.get_text())", "TAINT")
+brk("C07", "c07-vtt-escape-order", "ttconv/vtt/style.py", 'return text.replace("&", "&amp;").replace("<", "&lt;").replace(">", "&gt;")', 'return text.replace("<", "&lt;").replace(">", "&gt;").replace("&", "&amp;")', "TAINT")
+brk("C07", "c07-vtt-escape-lt-missing", "ttconv/vtt/style.py", 'return text.replace("&", "&amp;").replace("<", "&lt;").replace(">", "&gt;")', 'return text.replace("&", "&amp;").replace(">", "&gt;")', "TAINT")
+brk("C07", "c07-srt-numbering", SRTW, "p.to_string(id + 1) for id, p in enumerate(self._paragraphs)", "p.to_string(id) for id, p in enumerate(self._paragraphs)", "SEQ-id")
+brk("C07", "c07-vtt-counter", VTTW, "      self._paragraphs.pop()\n      self._captions_counter -= 1", "      self._paragraphs.pop()", "SEQ-id")
+brk("C07", "c07-vtt-header-order", VTTW, 'return "WEBVTT\\n\\n" + self.style_block() + "\\n".join(p.to_string() for p in self._paragraphs)', 'return "WEBVTT\\n\\n" + "\\n".join(p.to_string() for p in self._paragraphs) + self.style_block()', "HDR")
+brk("C07", "c07-srt-guard-strict", "ttconv/srt/paragraph.py", "    if self._end.to_seconds() <= self._begin.to_seconds():", "    if self._end.to_seconds() < self._begin.to_seconds():", "GUARD")
+brk("C07", "c07-vtt-guard-removed", "ttconv/vtt/cue.py", "    if self._end.to_seconds() <= self._begin.to_seconds():\n      raise ValueError(\"VTT paragraph end time code must be greater than the begin time code.\")\n\n", "", "GUARD")
+ben("C07", "c07-benign-guard-flipped", "ttconv/vtt/cue.py", "    if self._end.to_seconds() <= self._begin.to_seconds():", "    if not self._begin.to_seconds() < self._end.to_seconds():")
+ben("C07", "c07-benign-enumerate-start", SRTW, "p.to_string(id + 1) for id, p in enumerate(self._paragraphs)", "p.to_string(n) for n, p in enumerate(self._paragraphs, 1)")
+ben("C07", "c07-benign-escape-local", "ttconv/vtt/style.py", 'return text.replace("&", "&amp;").replace("<", "&lt;").replace(">", "&gt;")', 'escaped = text.replace("&", "&amp;")\n  return escaped.replace("<", "&lt;").replace(">", "&gt;")')
+ben("C07", "c07-benign-header-local", VTTW, 'return "WEBVTT\\n\\n" + self.style_block() + "\\n".join(p.to_string() for p in self._paragraphs)', 'cues = "\\n".join(p.to_string() for p in self._paragraphs)\n    return "WEBVTT\\n\\n" + self.style_block() + cues')
+ben2("C07", "c07-benign-open-order", VTTW, [("      if is_bold:\n        self._paragraphs[-1].append_text(style.BOLD_TAG_IN)\n      if is_italic:\n        self._paragraphs[-1].append_text(style.ITALIC_TAG_IN)", "      if is_italic:\n        self._paragraphs[-1].append_text(style.ITALIC_TAG_IN)\n      if is_bold:\n        self._paragraphs[-1].append_text(style.BOLD_TAG_IN)"),
+     ("      if is_italic:\n        self._paragraphs[-1].append_text(style.ITALIC_TAG_OUT)\n      if is_bold:\n        self._paragraphs[-1].append_text(style.BOLD_TAG_OUT)", "      if is_bold:\n        self._paragraphs[-1].append_text(style.BOLD_TAG_OUT)\n      if is_italic:\n        self._paragraphs[-1].append_text(style.ITALIC_TAG_OUT)")], "both orders swapped consistently")
 
 VARIANTS = V
